@@ -94,7 +94,7 @@ func (re *Regexp) FindString(s string) string {
 	if m == nil {
 		return ""
 	}
-	return m.String()
+	return captureText(s, &m.Capture)
 }
 
 // FindStringIndex returns a two-element slice defining the location of the
@@ -149,7 +149,7 @@ func (re *Regexp) FindStringSubmatch(s string) []string {
 	if m == nil {
 		return nil
 	}
-	return matchStrings(m)
+	return matchStrings(s, m)
 }
 
 // FindStringSubmatchIndex returns a slice holding the byte index pairs of the
@@ -209,7 +209,7 @@ func (re *Regexp) FindAllString(s string, n int) []string {
 	}
 	var out []string
 	re.forEachStringMatch(s, n, func(m *regexp2.Match) {
-		out = append(out, m.String())
+		out = append(out, captureText(s, &m.Capture))
 	})
 	return out
 }
@@ -254,7 +254,7 @@ func (re *Regexp) FindAllStringSubmatch(s string, n int) [][]string {
 	}
 	var out [][]string
 	re.forEachStringMatch(s, n, func(m *regexp2.Match) {
-		out = append(out, matchStrings(m))
+		out = append(out, matchStrings(s, m))
 	})
 	return out
 }
@@ -310,15 +310,22 @@ func (re *Regexp) forEachStringMatch(s string, n int, f func(*regexp2.Match)) {
 	}
 }
 
-func matchStrings(m *regexp2.Match) []string {
+func matchStrings(s string, m *regexp2.Match) []string {
 	groups := m.Groups()
 	out := make([]string, len(groups))
 	for i := range groups {
 		if len(groups[i].Captures) > 0 {
-			out[i] = groups[i].String()
+			out[i] = captureText(s, &groups[i].Capture)
 		}
 	}
 	return out
+}
+
+// captureText cuts the text of c out of the input the match was made on, so
+// that invalid UTF-8 in the input comes back byte for byte.
+func captureText(s string, c *regexp2.Capture) string {
+	start, length := c.ByteRange()
+	return s[start : start+length]
 }
 
 func matchIndexes(m *regexp2.Match) []int {
